@@ -143,13 +143,12 @@ type scen struct {
 	real  map[int]transaction.Transaction // the real transaction objects
 	idNum map[string]int                  // real id -> number (genesis: 0)
 
-	chain      []included // transactions of the executed blocks of the chain
-	pchain     []included // patch transactions of the executed (patched) transitions of the chain
-	unfinal    bool       // the parent block is not finalized
-	par, gpar  module.Transition
-	parT, gpT  trk
-	lastBTS    int64
-	genesisNum int
+	chain     []included // transactions of the executed blocks of the chain
+	pchain    []included // patch transactions of the executed (patched) transitions of the chain
+	unfinal   bool       // the parent block is not finalized
+	par, gpar module.Transition
+	parT, gpT trk
+	lastBTS   int64
 }
 
 func (s *scen) newRoot(g bool, ts, th int64) int {
@@ -1167,8 +1166,8 @@ func replay(raw json.RawMessage) string {
 
 func main() {
 	hxlib.Main(hxlib.Spec{
-		ID: "C37",
-		Rule: "scenarios on a real service.Manager (real pools, TXIDManager, locator manager, transitions; basic platform; in-memory db): genesis with random balances (0, tight, large), step price {0,1,7,10,1000}, step costs, timestamp threshold {default 5 min, 1, 2, 5, 50 ms}; 1..5 blocks with block timestamps stepping by {1, 2, 500, th/2, th-1, th, th+1, 2th, 2th+1, 3th, 5th} (eviction, maxTSInDB); per block a fresh pool of 0..12 signed v3 transactions (timestamps at bts-th-1, bts-th, bts-th+1, bts+-1, bts+th-1, bts+th, bts+th+1, inside, far outside; four shared senders with values that exhaust / exceed by one / leave one of the working balance; recipients that spend what they just received; from = to; step limits at minimum, minimum-1; message data; transactions of earlier blocks offered again; the same transaction added twice), limits at prefix sums of the sizes +-1, counts 1..4, defaults (<= 0); one block in four followed by a block proposed on an unfinalized parent; every second block after the first with a patch-group pool (patch transactions of earlier patched transitions offered again); plus extra lists (whole pool, duplicate, reversed, foreign element, chain transaction) through the validator only. non-trivial = a pool of >= 2 elements from which Candidate selects some but not all (finalized parent) / a non-empty extra list; distinct = distinct Coq case term",
+		ID:       "C37",
+		Rule:     "scenarios on a real service.Manager (real pools, TXIDManager, locator manager, transitions; basic platform; in-memory db): genesis with random balances (0, tight, large), step price {0,1,7,10,1000}, step costs, timestamp threshold {default 5 min, 1, 2, 5, 50 ms}; 1..5 blocks with block timestamps stepping by {1, 2, 500, th/2, th-1, th, th+1, 2th, 2th+1, 3th, 5th} (eviction, maxTSInDB); per block a fresh pool of 0..12 signed v3 transactions (timestamps at bts-th-1, bts-th, bts-th+1, bts+-1, bts+th-1, bts+th, bts+th+1, inside, far outside; four shared senders with values that exhaust / exceed by one / leave one of the working balance; recipients that spend what they just received; from = to; step limits at minimum, minimum-1; message data; transactions of earlier blocks offered again; the same transaction added twice), limits at prefix sums of the sizes +-1, counts 1..4, defaults (<= 0); one block in four followed by a block proposed on an unfinalized parent; every second block after the first with a patch-group pool (patch transactions of earlier patched transitions offered again); plus extra lists (whole pool, duplicate, reversed, foreign element, chain transaction) through the validator only. non-trivial = a pool of >= 2 elements from which Candidate selects some but not all (finalized parent) / a non-empty extra list; distinct = distinct Coq case term",
 		Preamble: "From Goloop Require Import lib.Bytes Model_Locator Model_TxPool.\nFrom GoloopRun Require Import Run_C37.",
 		Gen:      gen, Replay: replay, Shard: 130,
 	})
